@@ -145,13 +145,28 @@ def c10_c(ctx: Ctx):
     env = ctx.env(fi)
     out = []
     opens = [e for e in ctx.effects.direct(fi) if e.kind in ("open-write", "unknown-open")]
-    if not opens:
-        return [ctx.inc(R, fi, fi.node, "update_cache has no write-mode open")]
-    final_txt = None
     reps = []
     for n in body_nodes(fi):
         if isinstance(n, ast.Call) and common.ext_name(ctx, fi, n) in ("os.replace", "os.rename") and len(n.args) == 2:
             reps.append(n)
+    # typestate: the rename that publishes the cache happens only after every writer object has been closed, i.e. never inside a `with` that holds a file object
+    FILEISH = ("builtins.open", "io.open", "gzip.open", "gzip.GzipFile", "tempfile.NamedTemporaryFile", "tempfile.TemporaryFile", "os.fdopen", "bz2.open", "lzma.open")
+    pm0 = ctx.parents(fi)
+    for r in reps:
+        cur = pm0.get(id(r))
+        while cur is not None:
+            if isinstance(cur, (ast.With, ast.AsyncWith)):
+                for it in cur.items:
+                    ce = common.inline_at(ctx, fi, it.context_expr, cur)
+                    if isinstance(ce, ast.Call) and common.ext_name(ctx, fi, ce) in FILEISH:
+                        out.append(ctx.viol(R, fi, r, f"{canon(r)[:50]} is executed inside `with {canon(it.context_expr)[:30]}`, i.e. while a file object writing the temporary is still open "
+                                            "(not flushed / closed): the cache file is empty or torn at the instant it becomes visible, and stays so if the process dies there",
+                                            construct=UPD + "|rename-after-close"))
+                        return out
+            cur = pm0.get(id(cur))
+    if not opens:
+        return [ctx.inc(R, fi, fi.node, "update_cache has no write-mode open")]
+    final_txt = None
     for e in opens:
         if e.kind == "unknown-open":
             out.append(ctx.inc(R, fi, e.node, "open mode not constant"))
